@@ -147,6 +147,15 @@ Theorem C11_fence_document : forall m n pre cpre trail n' texts src,
   inr (replace_nul (bs "<pre><code>" ++ escape_html (out_lines true texts) ++ bs "</code></pre>" ++ [10])).
 Proof. exact fence_document_html. Qed.
 
+Theorem C11_indented_document : forall pre texts src,
+  forallb is_ws pre = true -> cols_from 0 pre = 4 ->
+  (exists T, nth_error texts 0 = Some T /\ blank T = false) ->
+  (exists T, nth_error texts (length texts - 1) = Some T /\ blank T = false) ->
+  texts_of src = map (fun T => pre ++ T) texts ->
+  forall xhtml, html_of_parse (default_fuel md_cmark) md_cmark xhtml src =
+  inr (replace_nul (bs "<pre><code>" ++ escape_html (out_lines false texts ++ [10]) ++ bs "</code></pre>" ++ [10])).
+Proof. exact indented_document_html. Qed.
+
 Theorem C11_lines_of_text : forall ls, ls <> [] -> forallb eol_free ls = true -> texts_of (lf_lines ls) = ls.
 Proof. exact texts_of_lf_lines. Qed.
 
@@ -176,3 +185,4 @@ Print Assumptions C11_indented_search_verbatim.
 Print Assumptions C11_span_search_verbatim.
 Print Assumptions C11_fence_document.
 Print Assumptions C11_lines_of_text.
+Print Assumptions C11_indented_document.
